@@ -81,7 +81,8 @@ Walk(j, done, bad) ==
       took == IF ok THEN pairs
               ELSE { pr \in pairs : IsFileAt(after, pr[1]) /\ InFile(Blobs[BlobAt(after, pr[1])], pr[2]) }
       done2 == done \cup took
-      paths2 == { pr[1] : pr \in done2 }
+      hidden == { p \in { pr[1] : pr \in done2 } : IsFileAt(after, Aside(p)) }     \* moved aside by the environment
+      paths2 == { pr[1] : pr \in done2 } \ hidden
       allowed == targets \cup UNION { DirPrefixes(Front(p)) : p \in targets }
       b1 == IF st.ret = "Panic" \/ st.poisoned THEN <<[step |-> j, tag |-> "C17v_panic"]>> ELSE <<>>
       b2 == IF st.ret # "Panic" /\ (ok = Blocked(c, before))
@@ -98,7 +99,7 @@ Walk(j, done, bad) ==
                         ds == SetToSeq({ DeclOfIdent(id) : id \in IdentsAt(done2, p) }) IN
                     /\ blob.ok /\ blob.notice /\ blob.nl_end
                     /\ WellMerged([imports |-> blob.imports, blocks |-> [k \in DOMAIN blob.blocks |-> [id |-> blob.blocks[k]]]], ds)
-            THEN <<>> ELSE <<[step |-> j, tag |-> IF \A pr \in done : IsFileAt(after, pr[1]) /\ InFile(Blobs[BlobAt(after, pr[1])], pr[2])
+            THEN <<>> ELSE <<[step |-> j, tag |-> IF \A pr \in { pr \in done : pr[1] \notin hidden } : IsFileAt(after, pr[1]) /\ InFile(Blobs[BlobAt(after, pr[1])], pr[2])
                                                       THEN "C05w_malformed" ELSE "C06l_lost"]>>
   IN Walk(j + 1, done2, bad \o b1 \o b2 \o b3 \o b4 \o b5)
 
@@ -116,7 +117,9 @@ ModelRun(s, j) == IF j > Len(H.steps) THEN s
                        ModelRun(CASE st.op = "call" -> RunCall(s, 1, st)
                                   [] st.op = "putdir" -> PutDir(s, st.path)
                                   [] st.op = "putfile" -> PutFile(s, st.path, NoFile)
-                                  [] st.op = "rm" -> RemovePath(s, st.path), j + 1)
+                                  [] st.op = "rm" -> RemovePath(s, st.path)
+                                  [] st.op = "swapout" -> SwapOut(s, st.path)
+                                  [] st.op = "swapin" -> SwapIn(s, st.path), j + 1)
 
 PredEqual ==
   LET s  == ModelRun(InitS, 1)
